@@ -18,6 +18,7 @@ def dispatch (line : String) : String :=
   | "asm15" :: rest => asm15Engine rest
   | "osfs" :: rest => osfsEngine rest
   | "git" :: rest => gitEngine rest
+  | "asm14" :: rest => asm14Engine rest
   | _ => "bad-op"
 
 partial def loop (hin hout : IO.FS.Stream) : IO Unit := do
